@@ -28,7 +28,10 @@ Record cfg := mkCfg {
                           counting storages, 4 reusable_storage_mtsafe *)
   c_k : rkind;
   c_k2 : option rkind; (* a competing resolver on thread 2 (value / exception / p(drop)) *)
-  c_cthrow : bool;     (* converter throws test_exc{c_cd} instead of returning src + c_cd *)
+  c_cb : nat;          (* converter behaviour on a value: 0 delivers src + c_cd, 1 throws test_exc{c_cd}, 2 resolves the
+                          promise with that exception itself, 3 declines (returns without touching the promise), 4 moves
+                          the promise to a holder from which thread 2 resolves it later with src + c_cd
+                          (2-4 need the promise-passing form of future_conv) *)
   c_cd : Z
 }.
 
@@ -48,8 +51,12 @@ Inductive instr :=
 | IReady                (* co_awaiter::await_ready -> future::ready  future.h:159-162 *)
 | ISub (retry : bool)   (* subscribe_check_ready  awaiter.h:121-136 *)
 | ICvClaim              (* future_conv resume function: promise<To> p = std::move(_prom)  future_conv.h:63 *)
-| ICvReady (got : bool) (* *_fut -> wait() -> await_ready  future_conv.h:66-69, then the converter *)
-| ICvSet (got : bool) (r : outcome)   (* p(result) / p(current_exception): claim + set  future_conv.h:69,72 *)
+| ICvReady              (* *_fut -> wait() -> await_ready  future_conv.h:66-69, then the converter *)
+| ICvSet (r : outcome)  (* p(result) / p(current_exception): claim + set  future_conv.h:69,72 *)
+| ICvPark (r : outcome) (* promise-passing converter moves p to a holder ("claim" in the move constructor) *)
+| ICvDtor               (* ~p at the end of the resume function: a promise that is still held is dropped  future.h:601-606 *)
+| IOWait                (* thread 2: waits until the converter has parked the outer promise (or the outer future is ready) *)
+| IOClaim               (* thread 2: held(result): claim + set *)
 | ICvResolve            (* resolve of the outer future *)
 | ICvWalk               (* outer chain walk: the outer consumer's callback *)
 | IOReady               (* outer consumer: await_ready on the outer future *)
@@ -71,6 +78,8 @@ Record st := mkSt {
   oprom : bool;          (* the outer promise is held by the registration (init parameter, then future_conv::_prom) *)
   oslot : slotv;
   opayload : outcome;
+  pheld : bool;          (* the local promise p of the running resume function holds the outer promise *)
+  oheld : option outcome;(* the converter's holder has the outer promise, to be resolved with this result *)
   allocs : nat;          (* helper blocks obtained (heap or storage) *)
   frees : nat;           (* helper blocks released *)
   th0 : list instr;
@@ -93,11 +102,11 @@ Definition thr (s : st) (i : nat) : list instr :=
 
 Definition set_thr (s : st) (i : nat) (l : list instr) : st :=
   match i with
-  | O => mkSt (owner s) (parked s) (slot s) (payload s) (oprom s) (oslot s) (opayload s) (allocs s) (frees s)
+  | O => mkSt (owner s) (parked s) (slot s) (payload s) (oprom s) (oslot s) (opayload s) (pheld s) (oheld s) (allocs s) (frees s)
               l (th1 s) (th2 s) (clk s) (ret1 s) (ret2 s) (won s) (nfire s) (nconv s) (ndeliv s) (nores s) (log s)
-  | S O => mkSt (owner s) (parked s) (slot s) (payload s) (oprom s) (oslot s) (opayload s) (allocs s) (frees s)
+  | S O => mkSt (owner s) (parked s) (slot s) (payload s) (oprom s) (oslot s) (opayload s) (pheld s) (oheld s) (allocs s) (frees s)
               (th0 s) l (th2 s) (clk s) (ret1 s) (ret2 s) (won s) (nfire s) (nconv s) (ndeliv s) (nores s) (log s)
-  | S (S O) => mkSt (owner s) (parked s) (slot s) (payload s) (oprom s) (oslot s) (opayload s) (allocs s) (frees s)
+  | S (S O) => mkSt (owner s) (parked s) (slot s) (payload s) (oprom s) (oslot s) (opayload s) (pheld s) (oheld s) (allocs s) (frees s)
               (th0 s) (th1 s) l (clk s) (ret1 s) (ret2 s) (won s) (nfire s) (nconv s) (ndeliv s) (nores s) (log s)
   | _ => s
   end.
@@ -105,27 +114,30 @@ Definition set_thr (s : st) (i : nat) (l : list instr) : st :=
 Definition push (s : st) (i : nat) (l : list instr) : st := set_thr s i (l ++ thr s i).
 
 Definition tick (s : st) : st :=
-  mkSt (owner s) (parked s) (slot s) (payload s) (oprom s) (oslot s) (opayload s) (allocs s) (frees s)
+  mkSt (owner s) (parked s) (slot s) (payload s) (oprom s) (oslot s) (opayload s) (pheld s) (oheld s) (allocs s) (frees s)
        (th0 s) (th1 s) (th2 s) (S (clk s)) (ret1 s) (ret2 s) (won s) (nfire s) (nconv s) (ndeliv s) (nores s) (log s).
 
 (* source cell updates *)
 Definition set_src (s : st) (o pk : bool) (sl : slotv) (p : outcome) : st :=
-  mkSt o pk sl p (oprom s) (oslot s) (opayload s) (allocs s) (frees s)
+  mkSt o pk sl p (oprom s) (oslot s) (opayload s) (pheld s) (oheld s) (allocs s) (frees s)
        (th0 s) (th1 s) (th2 s) (clk s) (ret1 s) (ret2 s) (won s) (nfire s) (nconv s) (ndeliv s) (nores s) (log s).
 (* outer cell updates *)
 Definition set_out (s : st) (op : bool) (sl : slotv) (p : outcome) (nr : nat) : st :=
-  mkSt (owner s) (parked s) (slot s) (payload s) op sl p (allocs s) (frees s)
+  mkSt (owner s) (parked s) (slot s) (payload s) op sl p (pheld s) (oheld s) (allocs s) (frees s)
        (th0 s) (th1 s) (th2 s) (clk s) (ret1 s) (ret2 s) (won s) (nfire s) (nconv s) (ndeliv s) nr (log s).
+Definition set_held (s : st) (ph : bool) (oh : option outcome) : st :=
+  mkSt (owner s) (parked s) (slot s) (payload s) (oprom s) (oslot s) (opayload s) ph oh (allocs s) (frees s)
+       (th0 s) (th1 s) (th2 s) (clk s) (ret1 s) (ret2 s) (won s) (nfire s) (nconv s) (ndeliv s) (nores s) (log s).
 Definition add_log (s : st) (l : list ev) : st :=
-  mkSt (owner s) (parked s) (slot s) (payload s) (oprom s) (oslot s) (opayload s) (allocs s) (frees s)
+  mkSt (owner s) (parked s) (slot s) (payload s) (oprom s) (oslot s) (opayload s) (pheld s) (oheld s) (allocs s) (frees s)
        (th0 s) (th1 s) (th2 s) (clk s) (ret1 s) (ret2 s) (won s) (nfire s) (nconv s) (ndeliv s) (nores s)
        (log s ++ map (fun e => (clk s, e)) l).
 Definition set_cnt (s : st) (fr nf nc nd : nat) : st :=
-  mkSt (owner s) (parked s) (slot s) (payload s) (oprom s) (oslot s) (opayload s) (allocs s) fr
+  mkSt (owner s) (parked s) (slot s) (payload s) (oprom s) (oslot s) (opayload s) (pheld s) (oheld s) (allocs s) fr
        (th0 s) (th1 s) (th2 s) (clk s) (ret1 s) (ret2 s) (won s) nf nc nd (nores s) (log s).
 (* a resolver's call returns b (who = 0: inside the init function, nothing is recorded); w: the new ghost winner *)
 Definition set_ret (s : st) (who : nat) (b : bool) (w : nat) : st :=
-  mkSt (owner s) (parked s) (slot s) (payload s) (oprom s) (oslot s) (opayload s) (allocs s) (frees s)
+  mkSt (owner s) (parked s) (slot s) (payload s) (oprom s) (oslot s) (opayload s) (pheld s) (oheld s) (allocs s) (frees s)
        (th0 s) (th1 s) (th2 s) (clk s)
        (match who with S O => Some b | _ => ret1 s end) (match who with S (S O) => Some b | _ => ret2 s end)
        w (nfire s) (nconv s) (ndeliv s) (nores s) (log s).
@@ -150,7 +162,11 @@ Definition has_cb (a : adapter) : bool := match a with ACbAwait | AMkProm | ACal
    or await_canceled_exception for a broken promise) *)
 Definition conv_result (c : cfg) (p : outcome) : outcome :=
   match p with
-  | OVal v => if c_cthrow c then OExc (c_cd c) else OVal (v + c_cd c)
+  | OVal v => match c_cb c with
+              | 1%nat | 2%nat => OExc (c_cd c)
+              | 3%nat => ONone                 (* declined: the outer promise is dropped, a broken promise *)
+              | _ => OVal (v + c_cd c)         (* 0 at once; 4 later, by thread 2 *)
+              end
   | OExc e => OExc e
   | ONone => OCanc
   | OCanc => OCanc
@@ -161,7 +177,7 @@ Definition conv_result (c : cfg) (p : outcome) : outcome :=
 Definition fire (c : cfg) (s : st) (i : nat) : st :=
   let s1 := set_cnt s (frees s) (S (nfire s)) (nconv s) (ndeliv s) in
   match c_ad c with
-  | AConv => push s1 i [ICvClaim; IPriv 2]           (* future_conv.h:60-74: four more hook points follow *)
+  | AConv => push s1 i [ICvClaim]                    (* future_conv.h:60-74: the resume function's hook points follow *)
   | ACallFn =>                                       (* future.h:1056-1060: owner.fn(_fut) *)
       add_log s1 [ECb (payload s) (allocs s) (frees s); ECbRet (allocs s) (frees s)]
   | ADiscard =>                                      (* future.h:978-982: delete _this *)
@@ -207,20 +223,40 @@ Definition exec (c : cfg) (s : st) (i : nat) (ins : instr) : st * Z :=
        | SEmpty => set_src s (owner s) (parked s) SSub (payload s)    (* subscribed *)
        | SSub => push s i [ISub true]                                 (* CAS failed, not ready: retry *)
        end, if r then 7 else 6)
-  | ICvClaim => (push (set_out s false (oslot s) (opayload s) (nores s)) i [ICvReady (oprom s)], 1)
-  | ICvReady g =>
+  | ICvClaim =>       (* promise<To> p = std::move(_prom) *)
+      (push (set_held (set_out s false (oslot s) (opayload s) (nores s)) (oprom s) (oheld s)) i [ICvReady], 1)
+  | ICvReady =>
       match slot s with
       | SReady =>
           let r := conv_result c (payload s) in
-          let s1 := match payload s with
-                    | OVal v => add_log (set_cnt s (frees s) (nfire s) (S (nconv s)) (ndeliv s)) [EConv v r]
-                    | _ => s
-                    end in
-          (push s1 i [ICvSet g r], 5)
-      | _ => (push s i [ICvReady g], 5)     (* would block in sync(); not reachable *)
+          match payload s with
+          | OVal v =>
+              (* the converter runs; what it does with the promise is its behaviour *)
+              let s1 := add_log (set_cnt s (frees s) (nfire s) (S (nconv s)) (ndeliv s)) [EConv v r] in
+              (push s1 i (match c_cb c with
+                          | 3%nat => [ICvDtor]                 (* declines: nothing but the end of the resume function *)
+                          | 4%nat => [ICvPark r]               (* moves the promise away *)
+                          | _ => [ICvSet r]                    (* p(value) / throws -> catch: p(current_exception) / p(exception) *)
+                          end), 5)
+          | _ => (push s i [ICvSet r], 5)                      (* *_fut rethrows -> catch: p(current_exception) *)
+          end
+      | _ => (push s i [ICvReady], 5)     (* would block in sync(); not reachable *)
       end
-  | ICvSet g r =>
-      if g then (push (set_out s (oprom s) (oslot s) r (nores s)) i [ICvResolve], 1) else (s, 1)
+  | ICvSet r =>
+      (* claim on p, set, resolve, then ~p *)
+      if pheld s then (push (set_held (set_out s (oprom s) (oslot s) r (nores s)) false (oheld s)) i [ICvResolve; ICvDtor], 1)
+      else (push s i [ICvDtor], 1)
+  | ICvPark r =>
+      if pheld s then (push (set_held s false (Some r)) i [ICvDtor], 1) else (push s i [ICvDtor], 1)
+  | ICvDtor =>
+      (* ~promise: a promise that nobody consumed resolves the outer future without a value *)
+      if pheld s then (push (set_held s false (oheld s)) i [ICvResolve], 2) else (s, 2)
+  | IOWait => (match oheld s with Some _ => push s i [IOClaim] | None => s end, 9)
+  | IOClaim =>
+      match oheld s with
+      | Some r => (push (set_held (set_out s (oprom s) (oslot s) r (nores s)) (pheld s) None) i [ICvResolve], 1)
+      | None => (s, 1)
+      end
   | ICvResolve =>
       let s1 := set_out s (oprom s) SReady (opayload s) (S (nores s)) in
       (match oslot s with SSub => push s1 i [ICvWalk] | _ => s1 end, 3)
@@ -239,6 +275,7 @@ Definition enabled (s : st) (i : nat) : bool :=
   match thr s i with
   | [] => false
   | IXWait :: _ => parked s
+  | IOWait :: _ => match oheld s with Some _ => true | None => match oslot s with SReady => true | _ => false end end
   | _ => true
   end.
 
@@ -283,11 +320,11 @@ Definition init (c : cfg) : st :=
        (is_mk c && negb (is_mts c))
        (if is_mk c then SSub else if is_mode c 0 then SReady else SEmpty)
        (if is_mode c 0 then out_of (c_k c) else ONone)
-       (is_conv c) SEmpty ONone
+       (is_conv c) SEmpty ONone false None
        (if has_helper (c_ad c) then 1%nat else 0%nat) 0%nat
        (reg_prog c ++ (if is_mode c 3 then res_prog c else []))
        (if is_mode c 2 then IXWait :: res_prog c else [])
-       (match c_k2 c with Some _ => [IXWait; IClaim 2] | None => [] end)
+       (match c_k2 c with Some _ => [IXWait; IClaim 2] | None => if is_conv c && Nat.eqb (c_cb c) 4 then [IOWait] else [] end)
        0%nat None None (if is_mode c 0 then 1%nat else 0%nat) 0%nat 0%nat 0%nat 0%nat [].
 
 Definition valid (c : cfg) : bool :=
@@ -295,7 +332,8 @@ Definition valid (c : cfg) : bool :=
   && Nat.leb (c_stor c) 4
   && (Nat.eqb (c_stor c) 0 || has_functor (c_ad c))
   && (negb (is_mk c) || Nat.leb 2 (c_mode c))
-  && (match c_k2 c with Some _ => is_mode c 2 | None => true end).
+  && (match c_k2 c with Some _ => is_mode c 2 && negb (Nat.eqb (c_cb c) 4) | None => true end)
+  && Nat.leb (c_cb c) 4.
 
 (* ---------- schedules ---------- *)
 Definition all_enabled (s : st) : list nat :=
@@ -337,13 +375,16 @@ Definition dec_mode (z : Z) : option nat := match z with 4 => None | _ => dec_na
    (0 member function, 1 free function, 2 free function with context, 3 member function that is handed the promise;
    a void source has only 0 and 3).  All specialisations have the same hook points and the same effect
    (future_conv.h:56-159), so the model does not distinguish them. *)
-Definition dec_conv (isvoid : bool) (ops : list (list Z)) : option (bool * Z) :=
+Definition dec_conv (isvoid : bool) (ops : list (list Z)) : option (nat * Z) :=
   match find_op 3 ops with
-  | None => Some (false, 0)
-  | Some [ck; cd] => match dec_bool ck with Some b => Some (b, cd) | None => None end
+  | None => Some (0%nat, 0)
+  | Some [ck; cd] => match dec_bool ck with Some b => Some (if b then 1%nat else 0%nat, cd) | None => None end
   | Some [ck; cd; sp] =>
-      match dec_bool ck, dec_mode sp with
-      | Some b, Some n => if isvoid && (Nat.eqb n 1 || Nat.eqb n 2) then None else Some (b, cd)
+      match dec_nat4 ck, dec_mode sp with
+      | Some b, Some n =>
+          if isvoid && (Nat.eqb n 1 || Nat.eqb n 2) then None
+          else if Nat.leb 2 b && negb (Nat.eqb n 3) then None     (* only a converter that is handed the promise can do 2-4 *)
+          else Some (b, cd)
       | _, _ => None
       end
   | Some _ => None
